@@ -57,12 +57,14 @@ def forFields (ts : List (List Cell)) (out : List Cell)
     | none => false
     | some cs => o.values.all fun (f, v) => p i f (cs.map fun c => (c.values.get? f).getD .none) v
 
-/-- one field, linear: a float array of the broadcast length whose entry `s` is `Σ_j w_j · v_j[s]` -/
+/-- one field, linear: a float array of the broadcast length `S` whose entry `s` is `Σ_j w_j · v_j[s]`; every input
+has exactly 1 or exactly `S` samples (so `pick`'s `getD … 0` never reads a default) -/
 def linearFieldOk (wi : List Rat) (tol : Rat) (vals : List Val) (v : Val) : Bool :=
   match vals.mapM samples, v with
   | some rows, .arr false [n] data =>
     let S := rows.foldl (fun m r => max m r.length) 0
     n == S && data.length == S && wi.length == rows.length &&
+    (rows.all fun r => r.length == 1 || r.length == S) &&
     (List.range S).all fun s => close tol (data.getD s 0) (wsum wi (rows.map (pick · s)))
   | _, _ => false
 
